@@ -57,6 +57,11 @@ func GenST(rng *Rng, prop, variant string) *STScript {
 	}
 	rootPools := [][]string{{"cdc_a", "cdcxa"}, {"by-dev", "by_dev", "by-dev2"}, {"r", "r/x"}, {"p%", "pq", "p"}, {"cdc", "cdc-meta"}}
 	sc.Roots = Pick(rng, rootPools)
+	if sc.Backend == "mysql" && rng.Pct(60) {
+		// the two known MySQL findings (root path in a LIKE pattern, deletes not scoped by root) need several roots or
+		// pattern characters in the root; most MySQL histories run on one plain root so that they are not cut short by them
+		sc.Roots = []string{Pick(rng, []string{"cdc", "r/x", "by-dev", "cdc-meta"})}
+	}
 	tasks := Pick(rng, [][]string{{"t1", "t11", "t1_", "tx"}, {"a%", "ab", "a"}, {"task_1", "taskx1", "task"}, {"u1", "u2", "u12"}})
 	colls := Pick(rng, [][]int64{{44, 441, 4499, 45}, {7, 70, 71}, {100, 1001, 10}})
 	pchs := []string{"dml_0", "dml_1", "dml_10"}
@@ -93,6 +98,18 @@ func GenST(rng *Rng, prop, variant string) *STScript {
 			op.Msg = Pick(rng, []string{"m1", "m11", "m_"})
 		}
 		sc.Ops = append(sc.Ops, op)
+	}
+	if rng.Pct(35) {
+		// directed tail: a task with checkpoints of two collections is deleted (the only multi-record transaction)
+		t, r := Pick(rng, tasks), rng.Intn(len(sc.Roots))
+		val++
+		sc.Ops = append(sc.Ops, STOp{K: "put_task", Root: r, Task: t, State: 1, Val: val, Coll: colls[0], PCh: pchs[0]})
+		for _, c := range colls[:2] {
+			val++
+			sc.Ops = append(sc.Ops, STOp{K: "upd_pos", Root: r, Task: t, Coll: c, PCh: Pick(rng, pchs), Val: val, Which: "pos"})
+		}
+		val++
+		sc.Ops = append(sc.Ops, STOp{K: "del_task", Root: r, Task: t, Val: val, Coll: colls[0], PCh: pchs[0]})
 	}
 	if rng.Pct(50) {
 		sc.Faults = rng.Range(1, 3)
@@ -246,12 +263,42 @@ type seqGate struct {
 	enabled bool
 	fired   map[string]int
 	calls   int
+	// failAt >= 0: the armed operation fails at its failAt-th backend call (calls before it succeed; calls after it - the
+	// clean-up paths - fall back to the per-call coin), so that late calls of a multi-step operation (the commit of a
+	// transaction) are reached as often as early ones
+	failAt int
+	inOp   int
+	always bool // the next armed operation uses the failAt mode
+}
+
+// arm prepares the gate for one operation.
+func (g *seqGate) arm(on bool, maxCalls int) {
+	g.enabled = on
+	g.inOp = 0
+	g.failAt = -1
+	if on && maxCalls > 0 && (g.always || g.tape.Choose(2) == 0) {
+		g.failAt = g.tape.Choose(maxCalls)
+	}
 }
 
 func (g *seqGate) gate(ctx context.Context, kind, key string) Outcome {
 	g.calls++
 	if !g.enabled || g.budget <= 0 {
 		return Outcome{}
+	}
+	idx := g.inOp
+	g.inOp++
+	if g.failAt >= 0 && idx < g.failAt {
+		return Outcome{}
+	}
+	if g.failAt >= 0 && idx == g.failAt {
+		g.budget--
+		if g.tape.Choose(2) == 0 {
+			g.fired["fault:store_err_before"]++
+			return Outcome{Fault: "store_err_before"}
+		}
+		g.fired["fault:store_err_after"]++
+		return Outcome{Fault: "store_err_after"}
 	}
 	// the operation is "armed" (see the loop over the operations): 0..1 ok, 2 err_before, 3 err_after
 	switch g.tape.Choose(4) + 4 {
@@ -497,7 +544,7 @@ func buildST(s *Sim, sc *STScript, g *seqGate) (*stSystem, *SimEtcd, *SimSQL) {
 }
 
 func runC12(s *Sim, sc *STScript) {
-	g := &seqGate{tape: s.Tape, budget: sc.Faults, fired: map[string]int{}}
+	g := &seqGate{tape: s.Tape, budget: sc.Faults, fired: map[string]int{}, failAt: -1}
 	sys, _, sq := buildST(s, sc, g)
 	model := newSTModel(sc.Roots)
 	taskSet, collSet, msgSet := map[string]bool{}, map[int64]bool{}, map[string]bool{}
@@ -537,9 +584,10 @@ func runC12(s *Sim, sc *STScript) {
 		if op.K == "del_task" {
 			arm = 2
 		}
-		g.enabled = g.budget > 0 && g.tape.Choose(arm) == 0
+		g.always = op.K == "del_task"
+		g.arm(g.budget > 0 && g.tape.Choose(arm) == 0, 7)
 		err := sys.exec(root, op)
-		g.enabled = false
+		g.arm(false, 0)
 		faulted := g.fired["fault:store_err_before"]+g.fired["fault:store_err_after"] > firedBefore
 		s.Step = i
 		s.logf("%03d %s root=%s task=%s coll=%d pch=%s which=%s val=%d -> err=%v faulted=%v", i, op.K, root, op.Task, op.Coll, op.PCh, op.Which, op.Val, err != nil, faulted)
